@@ -2,6 +2,7 @@ import Pyunicorn.Lemmas.Circuit
 import Pyunicorn.Lemmas.CircuitPinv
 import Pyunicorn.Lemmas.CircuitLaws
 import Pyunicorn.Lemmas.CircuitConn
+import Pyunicorn.Generated.ArithC18
 /-! # C18 — Resistive-network quantities obey circuit laws
 
 Model: `Pyunicorn/Model/Circuit.lean` (`ResNetwork` in exact rational arithmetic).
@@ -11,19 +12,34 @@ Model: `Pyunicorn/Model/Circuit.lean` (`ResNetwork` in exact rational arithmetic
 The executable model returns a pseudo-inverse / potentials only with an exact certificate of
 these identities, and the harness checks them numerically on `get_R()` in every case.
 
-Clauses of the property and where they are proved:
+Clauses of the property and where they are proved (round 2: at full strength — for every
+cut-connected resistor network and *every* `R` with `L R L = L`, no further hypothesis):
 
-* metric that vanishes only between identical nodes — `effRes_symm`, `effRes_self`,
-  `effRes_nonneg`, `effRes_eq_zero_iff`, `triangle` (on cut-connected networks, through the maximum
-  principle; `triangle_partial` is the superposition step)
-* scales linearly with all resistances            — `effRes_scaling`
-* never exceeds the resistance of a connecting path — `effRes_le_link`, `path_bound`
-* series and parallel laws                          — `series_law`, `parallel_law`
-* Foster's theorem                                  — `foster_partial` (for every `R` with
-  `L R = I − J/n`; that `pinv` of a *connected* network has this property is not proved)
+* metric that vanishes only between identical nodes — `effRes_metric` (zero diagonal, symmetry,
+  strict positivity, triangle inequality); building blocks `effRes_symm`, `effRes_self`,
+  `effRes_nonneg`, `effRes_eq_zero_iff`, `triangle`, `triangle_partial`
+* scales linearly with all resistances            — `effRes_scaling_connected` (`effRes_scaling`)
+* never exceeds the resistance of a connecting path — `path_bound_connected`,
+  `effRes_le_link_connected` (`path_bound`, `effRes_le_link`)
+* series and parallel laws — `series_law_chain` (chains of any length, any two nodes),
+  `parallel_law_bundle` (any number of two-link branches, with or without a direct link);
+  `series_law`, `parallel_law` are the three-node instances
+* Foster's theorem — `foster` (sum over links = N − 1); `foster_partial` is the ordered-pair form
+  for `R` with `L R = I − J/N`
+* what is assumed of `np.linalg.pinv` — only `L R L = L`; `exists_inverse_and_potentials` shows
+  such inverses and node potentials exist on every connected network, `effRes_ginv_unique` that
+  the value does not depend on which one is stored, `pinv_is_proj` that a matrix with the first
+  and third Moore–Penrose equations satisfies `L R = I − J/N`
+* `CutConnected` is implied by the model's executable test — `bfs_connected_sound`
 * betweenness / degree / clustering = defining sums — `vcfbKernel_eq_sum`, `ecfbKernel_eq_sum`,
-  `nodeCurrent_eq_potential`, `admDegree_eq_sum`, `degree_eq_card`, `localClustering_eq_sum`
-* all follow a change of the resistances            — `history_fresh`
+  `nodeCurrent_eq_potential`, `admDegree_eq_sum`, `degree_is_card`, `localClustering_eq_sum`,
+  `anad_eq_sum`, `globalClustering_eq_mean`, `admDegree_scaling`
+* model arithmetic = source arithmetic (regenerated every run) — `effRes_matches_source`,
+  `averageOf_matches_source`, `ercc_matches_source`, `localClustering_matches_source`
+* all follow a change of the resistances — `history_fresh` over `update_resistances`,
+  `update_admittance`, `update_R` and 15 queries (effective resistance, average, diameter,
+  closeness, vertex / edge betweenness, admittive degree, neighbours' degree, local / global
+  clustering, `get_R`, `get_admittance`, Laplacian, the mean printed by `__str__`)
 -/
 namespace Pyunicorn.Circuit
 open Finset
@@ -455,6 +471,36 @@ theorem nodeCurrent_eq_potential (n : Nat) (adm R : Mat) (i s t : Nat) :
   congr 2
   ring
 
+/-- betweenness does not change when all resistances are multiplied by `k > 0` (admittances
+`÷ k`, pseudo-inverse `× k`) -/
+theorem vcfb_scaling_invariant (n : Nat) (Is It : Rat) (adm R : Mat) (k : Rat) (hk : 0 < k) (i : Nat) :
+    vcfbKernel n Is It (fun a b => (1 / k) * adm a b) (fun a b => k * R a b) i
+      = vcfbKernel n Is It adm R i := by
+  rw [vcfbKernel_eq_sum, vcfbKernel_eq_sum]
+  congr 1
+  refine Finset.sum_congr rfl fun t _ => Finset.sum_congr rfl fun s _ => ?_
+  split
+  · rfl
+  · unfold nodeCurrent
+    congr 1
+    refine Finset.sum_congr rfl fun j _ => ?_
+    have : Is * (k * R i s - k * R j s) + It * (k * R j t - k * R i t)
+        = k * (Is * (R i s - R j s) + It * (R j t - R i t)) := by ring
+    rw [this, abs_mul, abs_of_pos hk]
+    field_simp
+
+theorem ecfb_scaling_invariant (n : Nat) (Is It : Rat) (adm R : Mat) (k : Rat) (hk : 0 < k)
+    (i j : Nat) :
+    ecfbKernel n Is It (fun a b => (1 / k) * adm a b) (fun a b => k * R a b) i j
+      = ecfbKernel n Is It adm R i j := by
+  rw [ecfbKernel_eq_sum, ecfbKernel_eq_sum]
+  congr 1
+  refine Finset.sum_congr rfl fun t _ => Finset.sum_congr rfl fun s _ => ?_
+  have : Is * (k * R i s - k * R j s) + It * (k * R j t - k * R i t)
+      = k * (Is * (R i s - R j s) + It * (R j t - R i t)) := by ring
+  rw [this, abs_mul, abs_of_pos hk]
+  field_simp
+
 /-! ## admittive degree and clustering -/
 
 theorem admDegree_eq_sum (n : Nat) (adm : Mat) (i : Nat)
@@ -504,6 +550,100 @@ theorem admDegree_scaling (n : Nat) (adj : Adj) (res : Mat) (k : Rat) (i : Nat) 
   unfold admDegree colSum
   rw [sumTo_eq, sumTo_eq, Finset.mul_sum]
   exact Finset.sum_congr rfl fun j _ => admittance_scale adj res k j i
+
+/-! ## complex impedances (any field)
+
+`ResNetwork` accepts complex resistances (`flagComplex`); the executable model is rational, but the
+algebra behind `effective_resistance` does not use the order of ℚ.  Stated on Mathlib matrices
+over an arbitrary field `K` (ℂ for impedances): the value computed from any generalised inverse
+is the potential drop of a unit current, and it scales linearly with a common (complex) factor of
+all impedances.  (Positivity, triangle inequality and path bound are statements about real
+resistances only.) -/
+section anyField
+open Matrix
+variable {K : Type} [Field K] {n : Nat}
+
+theorem impedance_eq_potential_drop (L R : Matrix (Fin n) (Fin n) K) (hL : Lᵀ = L)
+    (hg : L * R * L = L) (v : Fin n → K) (a b : Fin n)
+    (hv : L *ᵥ v = Pi.single a 1 - Pi.single b 1) :
+    R a a - R a b - R b a + R b b = v a - v b := by
+  have h := ginv_quadform L R hL hg v _ hv
+  rwa [quad_single, dot_single] at h
+
+theorem impedance_scaling (L R R' : Matrix (Fin n) (Fin n) K) (k : K) (hk : k ≠ 0) (hL : Lᵀ = L)
+    (hg : L * R * L = L) (hg' : (k⁻¹ • L) * R' * (k⁻¹ • L) = k⁻¹ • L) (v : Fin n → K) (a b : Fin n)
+    (hv : L *ᵥ v = Pi.single a 1 - Pi.single b 1) :
+    R' a a - R' a b - R' b a + R' b b = k * (R a a - R a b - R b a + R b b) := by
+  have hv' : (k⁻¹ • L) *ᵥ (k • v) = Pi.single a 1 - Pi.single b 1 := by
+    rw [Matrix.smul_mulVec, Matrix.mulVec_smul, smul_smul, inv_mul_cancel₀ hk, one_smul, hv]
+  have hL' : (k⁻¹ • L)ᵀ = k⁻¹ • L := by rw [Matrix.transpose_smul, hL]
+  rw [impedance_eq_potential_drop _ R' hL' hg' _ a b hv', impedance_eq_potential_drop L R hL hg v a b hv]
+  simp only [Pi.smul_apply, smul_eq_mul]
+  ring
+
+/-- non-vacuity over ℚ(i)-like fields is the rational case: the two-node network `L = [[1,-1],[-1,1]]`
+with `R = L/4` -/
+example : (!![(1 : ℚ)/4, -1/4; -1/4, 1/4]) 0 0 - (!![(1 : ℚ)/4, -1/4; -1/4, 1/4]) 0 1
+    - (!![(1 : ℚ)/4, -1/4; -1/4, 1/4]) 1 0 + (!![(1 : ℚ)/4, -1/4; -1/4, 1/4]) 1 1
+    = (![1, 0] : Fin 2 → ℚ) 0 - (![1, 0] : Fin 2 → ℚ) 1 := by
+  refine impedance_eq_potential_drop (!![(1 : ℚ), -1; -1, 1]) _ ?_ ?_ ![1, 0] 0 1 ?_
+  · ext i j; fin_cases i <;> fin_cases j <;> rfl
+  · ext i j; fin_cases i <;> fin_cases j <;> simp [Matrix.mul_apply, Fin.sum_univ_two] <;> norm_num
+  · ext i; fin_cases i <;> simp [Matrix.mulVec, dotProduct, Fin.sum_univ_two]
+
+end anyField
+
+/-! ## the arithmetic of the model is the arithmetic of the source
+
+`Pyunicorn.Generated.ArithC18` is regenerated on every run from the current
+`resistive_network.py` by `translate/gen_arith.py` (spec `translate/arith_C18.json`): the return
+expression of `effective_resistance`, the normalisations of `average_effective_resistance` and
+the closeness centrality, and the branch condition and quotient of the clustering loop.  The
+model functions are proved equal to these generated expressions, so an edit of one of these
+source expressions breaks the build of this file. -/
+section source_tie
+open Pyunicorn.Generated.ArithC18
+
+private theorem natpair_cast (n : Nat) :
+    (((n * (n - 1) : Nat) : Rat)) = (((n : Int) * ((n : Int) - 1) : Int) : Rat) := by
+  cases n with
+  | zero => simp
+  | succ m => push_cast; simp
+
+theorem effRes_matches_source (R : Mat) (a b : Nat) :
+    effRes R a b = if a = b then 0 else effResExpr (R a a) (R a b) (R b a) (R b b) := by
+  unfold effRes effResExpr; rfl
+
+theorem averageOf_matches_source (n : Nat) (store : List Rat) :
+    averageOf n store = avgExpr (n : Int) store.sum := by
+  unfold averageOf avgExpr
+  rw [natpair_cast]
+  norm_num
+
+theorem ercc_matches_source (n : Nat) (hn : 0 < n) (R : Mat) (a : Nat) :
+    ercc n R a = erccExpr (n : Int) (sumTo n fun i => effRes R a i) := by
+  unfold ercc erccExpr
+  congr 1
+  obtain ⟨m, rfl⟩ : ∃ m, n = m + 1 := ⟨n - 1, by omega⟩
+  push_cast; simp
+
+theorem localClustering_matches_source (n : Nat) (adj : Adj) (adm : Mat) (i : Nat) :
+    localClustering n adj adm i
+      = if clusterBranch (degree n adj i : Int) = true then 0
+        else clusterExpr
+          ((List.range n).foldl (fun dummy j =>
+            (List.range n).foldl (fun dummy k => dummy + adm i j * adm i k * adm j k) dummy) 0)
+          (admDegree n adm i) (degree n adj i : Int) := by
+  unfold localClustering clusterBranch clusterExpr
+  simp only [decide_eq_true_eq]
+  have h : ((degree n adj i : Int) = 1) ↔ degree n adj i = 1 := by omega
+  by_cases h1 : degree n adj i = 1
+  · rw [if_pos h1, if_pos (h.mpr h1)]
+  · rw [if_neg h1, if_neg (fun e => h1 (h.mp e))]
+    push_cast
+    rfl
+
+end source_tie
 
 /-! ## histories of `update_resistances` and queries -/
 
